@@ -397,7 +397,7 @@ def _lifecycle_stage(thorough):
         out["lifecycle_states"], out["lifecycle_transitions"] = res.distinct, res.generated
         cov = {k: v[1] for k, v in res.action_counts().items()}
         out["lifecycle_action_coverage"] = cov
-        dead = [a for a in ("Create", "FlushTask", "Send", "Close", "AssocEnd", "Establish")
+        dead = [a for a in ("Create", "FlushTask", "Send", "Close", "AssocEnd", "Establish", "RetxReconfig")
                 if not cov.get(a)]
         if dead:
             raise T.MachineryError("vacuity: lifecycle actions never taken: %s" % dead)
